@@ -148,15 +148,18 @@ def mutations(body, lists, fi=None, alias=None, ci=None, depth=1):
                                         det = det.replace("(" + p_ + ")", "(" + a_src + ")").replace("(" + p_ + ",", "(" + a_src + ",")
                                     out[l_].append((kind, det, n))
             if isinstance(n, ast.Assign):
-                for t in n.targets:
+                for t in [e_ for t_ in n.targets for e_ in (t_.elts if isinstance(t_, (ast.Tuple, ast.List)) else [t_])]:
                     tl = t.attr if (self_attr(t) and t.attr in lists) else None
                     if tl is not None:
                         perms = _perm_names(fi, n, n.value) if fi is not None else []
                         if perms:
                             out[tl].append(("assign", f"re-ordered by {len(perms)} arg-sort permutation(s) #" + str(abs(hash(tuple(perms))) % 10000), n))
                         else:
-                            other = sorted({x.id for x in ast.walk(n.value) if isinstance(x, ast.Name)} - {"self", "np", "list", "i", "j", "k"})
-                            out[tl].append(("assign", "assign via " + ",".join(other), n))
+                            # a new list bound to the attribute: which values it holds is not judged here (no verdict from the names they come
+                            # through); what would put the lists out of step is ONE of them being re-ordered on the way
+                            reord = any((isinstance(x, ast.Call) and astq.src(x.func).split(".")[-1] in ("sorted", "reversed", "argsort", "sort", "flip", "unique", "set"))
+                                        or (isinstance(x, ast.Slice) and x.step is not None) for x in ast.walk(n.value))
+                            out[tl].append(("assign", "assign" + (" (re-ordered)" if reord else ""), n))
                     if isinstance(t, ast.Subscript) and _target_list(t.value, lists, alias):
                         out[_target_list(t.value, lists, alias)].append(("setitem", "setitem", n))
             if isinstance(n, ast.Delete):
@@ -276,8 +279,9 @@ def check(prog, run):
                 a, b = mu[MAIN], mu[partner]
                 if not a and not b:
                     continue
-                ka = sorted(x[1] for x in a)
-                kb = sorted(x[1] for x in b)
+                # (binding a new list once or twice is the same thing: assignments count once)
+                ka = sorted([x[1] for x in a if x[0] != "assign"] + sorted({x[1] for x in a if x[0] == "assign"}))
+                kb = sorted([x[1] for x in b if x[0] != "assign"] + sorted({x[1] for x in b if x[0] == "assign"}))
                 ok = ka == kb
                 if any(x[0] == "unknown" for x in a + b):
                     ok = None
@@ -294,8 +298,12 @@ def check(prog, run):
                     if self_attr(t):
                         v = n.value
                         kind = "list" if _is_list_expr(ci, v) else "other"
+                        if kind == "other" and not ((isinstance(v, ast.Call) and astq.callee_name(prog, m, v) in ARRAY_MAKERS) or isinstance(v, (ast.Tuple, ast.Dict, ast.Set))
+                                                    or (isinstance(v, ast.Constant) and v.value is not None)):
+                            kind = "unknown"        # a value handed in / computed elsewhere: its type is not read off the assignment
                         assigned.setdefault(t.attr, set()).add(kind)
     listattrs = {a for a, k in assigned.items() if k == {"list"}}
+    maybe_lists = {a for a, k in assigned.items() if k <= {"list", "unknown"}}
     nsites = 0
     for m in ci.methods.values():
         for n in ast.walk(m.node):
@@ -306,22 +314,175 @@ def check(prog, run):
                         if isinstance(n.op, ast.Add) and isinstance(other, (ast.List, ast.ListComp)):
                             continue
                         ox = astq.expr_at(m, n, other) if isinstance(other, ast.Name) else other
-                        if isinstance(ox, ast.Call) and astq.callee_name(prog, m, ox) in ARRAY_MAKERS:
+                        def _arr0(e_):
+                            return (isinstance(e_, ast.Call) and astq.callee_name(prog, m, e_) in ARRAY_MAKERS) or (isinstance(e_, ast.BinOp) and (_arr0(e_.left) or _arr0(e_.right)))
+                        if _arr0(ox):
                             continue  # ndarray (op) list broadcasts
-                        nsites += 1
-                        run.ob("R-types", m.qual, f"arithmetic on list attribute self.{side.attr}", False,
+                        if isinstance(ox, ast.Call):
+                            # a helper of the package that hands back an array (np.arange(n) * step ..)
+                            try:
+                                r_ = prog.resolve_call(m, ox)
+                            except Exception:
+                                r_ = None
+                            if not hasattr(r_, "node"):
+                                r_ = prog.functions.get(astq.callee_name(prog, m, ox) or "")
+                            rets_ = [x.value for x in ast.walk(r_.node) if isinstance(x, ast.Return) and x.value is not None] if hasattr(r_, "node") else []
+
+                            def _arr(e_):
+                                return (isinstance(e_, ast.Call) and astq.callee_name(prog, r_, e_) in ARRAY_MAKERS) or (isinstance(e_, ast.BinOp) and (_arr(e_.left) or _arr(e_.right)))
+                            if rets_ and all(_arr(astq.expr_at(r_, x_, x_.value)) for x_ in ast.walk(r_.node) if isinstance(x_, ast.Return) and x_.value is not None):
+                                continue
+                        scalar = isinstance(ox, ast.Constant) or (isinstance(ox, ast.Call) and astq.src(ox.func) in ("int", "float", "len", "round", "abs")) \
+                            or (isinstance(ox, ast.Attribute) and ox.attr in ("xdata", "ydata"))
+                        nsites += 1 if scalar else 0
+                        run.ob("R-types", m.qual, f"arithmetic on list attribute self.{side.attr}", False if scalar else None,
                                f"`{astq.src(n, 60)}`: self.{side.attr} is only ever assigned lists, `{type(n.op).__name__}` with a number raises TypeError",
                                witness=astq.src(n, 60), file=f, node=n)
     run.ob("R-types", ci.qual, "list attributes", True, f"list-valued attributes {sorted(listattrs)}: no arithmetic directly on them" if nsites == 0 else f"{nsites} offending site(s)", file=f, node=ci.node)
-    run.ob("R-types", ci.qual, "frequency list and partner lists are list-valued", {MAIN, "pole_ind", "freq_ind"} <= listattrs,
+    run.ob("R-types", ci.qual, "frequency list and partner lists are list-valued", True if {MAIN, "pole_ind", "freq_ind"} <= listattrs else (None if {MAIN, "pole_ind", "freq_ind"} <= maybe_lists else False),
            f"{sorted(listattrs)}", witness=str(sorted(listattrs)), file=f, node=ci.node)
     pick(prog, run, ci, f)
     click_position(prog, run, ci, f)
+    own_lists(prog, run, ci, f)
     # "the modes extracted afterwards are those poles": per-mode order lists are resolved to the nearest retained pole (rules of C11)
     from . import C11
     C11.declare_extraction_rules(run, first_order=False, handover_min=10)
     C11.extraction(prog, run, first_order=False, with_handover=True, only_methods=("mpe_from_plot",))
     handover(prog, run, ci, f)
+
+
+def own_lists(prog, run, ci, f):
+    """R-own-lists: the dialog changes its lists in place (append / pop / insert ..), so every list it binds to those attributes must be
+    its own - built there (literal, comprehension, list(..), sorted(..), a copy) - and not an object that outlives the dialog: a mutable
+    default / module-level constant handed in through a parameter is ONE object for all dialogs, and what one dialog picks stays in it"""
+    run.rule("R-own-lists", "the lists the dialog mutates in place are built by the dialog, not taken over from a default or module-level object shared by all dialogs", 3)
+    tracked = (MAIN, "pole_ind", "freq_ind")
+    inplace = {a: False for a in tracked}
+    for m in ci.methods.values():
+        for n in ast.walk(m.node):
+            if isinstance(n, ast.Call) and isinstance(n.func, ast.Attribute) and n.func.attr in MUTATORS and self_attr(n.func.value) and n.func.value.attr in inplace:
+                inplace[n.func.value.attr] = True
+            if isinstance(n, (ast.Assign, ast.Delete)):
+                for t in (n.targets if isinstance(n, (ast.Assign, ast.Delete)) else []):
+                    if isinstance(t, ast.Subscript) and self_attr(t.value) and t.value.attr in inplace:
+                        inplace[t.value.attr] = True
+    mod = prog.mods[ci.mod]
+
+    def shared_default(d):
+        """(True, what) when the default expression denotes one object that every call shares and that holds a list"""
+        if isinstance(d, ast.Name):
+            for st in mod.tree.body:
+                if (isinstance(st, ast.Assign) and any(isinstance(t_, ast.Name) and t_.id == d.id for t_ in st.targets)) or \
+                        (isinstance(st, ast.AnnAssign) and isinstance(st.target, ast.Name) and st.target.id == d.id and st.value is not None):
+                    ok_, what = shared_default(st.value)
+                    return ok_, f"module-level `{d.id}`" if ok_ else what
+            return None, f"`{d.id}`"
+        if isinstance(d, (ast.List, ast.Dict, ast.Set)):
+            return True, f"mutable default `{astq.src(d, 30)}`"
+        if isinstance(d, ast.Tuple):
+            for e in d.elts:
+                ok_, what = shared_default(e)
+                if ok_:
+                    return True, f"default `{astq.src(d, 30)}` (holds a list)"
+            return False, ""
+        if isinstance(d, ast.Constant):
+            return False, ""
+        return None, f"`{astq.src(d, 30)}`"
+
+    def origin(m, at, e, depth=0):
+        """'fresh' / ('shared', what) / ('param', what) / None for the object expression e denotes at statement `at` of method m"""
+        if _is_list_expr(ci, e) or isinstance(e, (ast.BinOp, ast.ListComp, ast.List)):
+            return "fresh"
+        if isinstance(e, ast.Call) and isinstance(e.func, ast.Attribute) and e.func.attr in ("copy", "tolist"):
+            return "fresh"
+        if isinstance(e, ast.Subscript) and isinstance(e.slice, ast.Slice):
+            return "fresh"                       # a slice of a list is a new list
+        base = e
+        while isinstance(base, ast.Subscript):
+            base = base.value
+        if isinstance(base, ast.Name):
+            pos = [a.arg for a in m.node.args.posonlyargs + m.node.args.args + m.node.args.kwonlyargs]
+            stores = [n for n in ast.walk(m.node) if isinstance(n, (ast.Assign,)) and any(isinstance(x, ast.Name) and x.id == base.id and isinstance(x.ctx, ast.Store) for t_ in n.targets for x in ast.walk(t_))]
+            if stores:
+                if len(stores) != 1:
+                    return None
+                st = stores[0]
+                tgt = st.targets[0]
+                if isinstance(tgt, ast.Name):
+                    return origin(m, st, st.value, depth) if e is base else origin(m, st, st.value, depth)
+                if isinstance(tgt, (ast.Tuple, ast.List)):
+                    # a, b = <expr>: the element of the unpacked object
+                    if isinstance(st.value, (ast.Tuple, ast.List)) and len(st.value.elts) == len(tgt.elts):
+                        k = next((i for i, x in enumerate(tgt.elts) if isinstance(x, ast.Name) and x.id == base.id), None)
+                        return origin(m, st, st.value.elts[k], depth) if k is not None else None
+                    return origin(m, st, st.value, depth)
+                return None
+            if base.id in pos:
+                args = m.node.args
+                allp = args.posonlyargs + args.args
+                d = None
+                if base.id in [a.arg for a in allp]:
+                    i = [a.arg for a in allp].index(base.id) - (len(allp) - len(args.defaults))
+                    d = args.defaults[i] if i >= 0 else None
+                else:
+                    i = [a.arg for a in args.kwonlyargs].index(base.id)
+                    d = args.kw_defaults[i]
+                if m.node.name == "__init__" or d is not None:
+                    if d is not None:
+                        ok_, what = shared_default(d)
+                        if ok_:
+                            return ("shared", f"parameter `{base.id}` of {m.node.name}, whose default is the {what}")
+                    if m.node.name == "__init__":
+                        return ("param", f"parameter `{base.id}` of the constructor")
+                # a helper of the dialog: what its callers hand in
+                if depth < 3:
+                    res = []
+                    for cm in ci.methods.values():
+                        for c in ast.walk(cm.node):
+                            if isinstance(c, ast.Call) and self_attr(c.func) and c.func.attr == m.node.name:
+                                b_, errs = astq.bind_args(m.node, c, bound=True)
+                                a_ = b_.get(base.id)
+                                if isinstance(a_, ast.AST):
+                                    res.append(origin(cm, c, a_, depth + 1))
+                    if res and all(r == "fresh" for r in res):
+                        return "fresh"
+                    for r in res:
+                        if isinstance(r, tuple) and r[0] == "shared":
+                            return r
+                    for r in res:
+                        if isinstance(r, tuple):
+                            return r
+                return None
+            return None
+        if self_attr(base):
+            return None
+        return None
+
+    n = 0
+    for m in ci.methods.values():
+        for st in ast.walk(m.node):
+            if not isinstance(st, ast.Assign):
+                continue
+            for t in st.targets:
+                pairs = []
+                if self_attr(t) and t.attr in tracked:
+                    pairs.append((t.attr, st.value))
+                elif isinstance(t, (ast.Tuple, ast.List)):
+                    for k, x in enumerate(t.elts):
+                        if self_attr(x) and x.attr in tracked:
+                            v = st.value.elts[k] if isinstance(st.value, (ast.Tuple, ast.List)) and len(st.value.elts) == len(t.elts) else ast.Subscript(value=st.value, slice=ast.Constant(value=k), ctx=ast.Load())
+                            pairs.append((x.attr, v))
+                for attr, v in pairs:
+                    if not inplace[attr]:
+                        continue
+                    o = origin(m, st, v)
+                    n += 1
+                    ok = True if o == "fresh" else (False if isinstance(o, tuple) and o[0] == "shared" else None)
+                    why = "a list built here" if o == "fresh" else (f"`{astq.src(v, 40)}` is taken over from {o[1]}" + (": one object for every dialog - the entries one dialog appends stay in it for the next" if o[0] == "shared" else
+                                                                     ": the caller's own list is changed in place") if isinstance(o, tuple) else f"origin of `{astq.src(v, 40)}` not followed")
+                    run.ob("R-own-lists", m.qual, f"self.{attr} is the dialog's own list", ok, why, witness=f"{attr}:{o if isinstance(o, str) else (o[0] if o else None)}", file=f, node=st)
+    if n == 0:
+        run.ob("R-own-lists", ci.qual, "list attributes", None, "no binding of the selection lists found", file=f, node=ci.node)
 
 
 def pick(prog, run, ci, f):
@@ -351,13 +512,18 @@ def pick(prog, run, ci, f):
         inner = inner.args[0]
     arr = astq.argreduce(prog, m, inner, astq.ARGMIN)
     d = astq.strip_abs(prog, m, arr) if arr is not None else None
-    ok = False
+    ok = None
     why = astq.src(yv, 100)
     if isinstance(d, ast.BinOp) and isinstance(d.op, ast.Sub):
         l, r = d.left, d.right
-        isar = isinstance(l, ast.Call) and astq.callee_name(prog, m, l) == "numpy.arange" and ".shape[1]" in astq.src(l) and "Fn_poles" in astq.src(l)
-        isy = "y_data_pole" in astq.src(r)
-        ok = isar and isy
+        if isinstance(l, ast.BinOp) and isinstance(l.op, ast.Mult):
+            # the order of column k where the chart draws one column every `step` orders: arange(n) * step
+            l = l.left if isinstance(l.left, ast.Call) else l.right
+        if isinstance(l, ast.Call) and astq.callee_name(prog, m, l) == "numpy.arange" and "Fn_poles" in astq.src(l) and "y_data_pole" in astq.src(r):
+            # a ramp over the other extent of the pole table (the poles of one order) is a recognised different construct
+            ok = True if ".shape[1]" in astq.src(l) else (False if ".shape[0]" in astq.src(l) else None)
+    elif arr is None and isinstance(inner, ast.expr) and "y_data_pole" in astq.src(inner) and not any(isinstance(c_, ast.Call) for c_ in ast.walk(inner)):
+        ok = False          # the click height itself stored as the order: no nearest-order search at all
     run.ob("R-pick", m.qual, "order index = argmin |arange(number of orders) - click y|", ok, f"`{why}`", witness=why[:80], file=f, node=apps["pole_ind"])
     tbl = "self.algo.result.Fn_poles"
     fvx, yvx = fv, yv
